@@ -183,4 +183,16 @@ theorem fact_C04_journal_dirty_count_bookkeeping :
        "journal.Revert = for:i >= snapshot ; assign:i ; call:len ; --:i ; call:j.entries[i].Revert ; if:addr != nil ; assign:addr ; call:j.entries[i].Dirtied ; if:j.dirties[*addr] == 0 ; --:j.dirties[*addr] ; call:delete ; assign:j.entries"] := by
   decide +kernel
 
+/-- the write-back, as the model's `commit` / `commitCache` / `commitInto` / `flushObj` were written from it: `Commit` first writes the
+    cache context back (if one exists) and then flushes into the transaction context, `CommitCacheCtx` flushes into the cache
+    context; the flush walks the SORTED dirty addresses; a missing object only resets the count; a self-destructed object is deleted
+    from the keeper and from `stateObjects`; any other object gets its code (if dirty), its account record, and every dirty slot
+    whose value differs from `OriginStorage[key]` — which is then advanced to the written value; the count is reset to 0 -/
+theorem fact_C04_commit_skeleton :
+    Generated.commitSkeletons =
+      ["StateDB.Commit = if:s.writeToCommitCtxFromCacheCtx != nil ; call:s.writeToCommitCtxFromCacheCtx ; return:s.commitCtx(s.GetEvmTxContext()) ; call:s.commitCtx ; call:s.GetEvmTxContext",
+       "StateDB.CommitCacheCtx = return:s.commitCtx(s.cacheCtx) ; call:s.commitCtx",
+       "StateDB.commitCtx = range:s.Journal.sortedDirties() ; call:s.Journal.sortedDirties ; assign:obj ; call:s.getStateObject ; if:obj == nil ; assign:s.Journal.dirties[addr] ; continue ; if:obj.Suicided ; if:err != nil ; assign:err ; call:s.keeper.DeleteAccount ; call:obj.Address ; return:errorf(\"failed to delete account: %w\", err) ; call:errorf ; call:delete ; if:obj.code != nil && obj.DirtyCode ; call:s.keeper.SetCode ; call:obj.CodeHash ; if:err != nil ; assign:err ; call:s.keeper.SetAccount ; call:obj.Address ; call:obj.account.ToNative ; return:errorf(\"failed to set account: %w\", err) ; call:errorf ; range:obj.DirtyStorage.SortedKeys() ; call:obj.DirtyStorage.SortedKeys ; assign:dirtyVal ; if:dirtyVal == obj.OriginStorage[key] ; continue ; call:s.keeper.SetState ; call:obj.Address ; call:dirtyVal.Bytes ; assign:obj.OriginStorage[key] ; assign:s.Journal.dirties[addr] ; return:nil"] := by
+  decide +kernel
+
 end Nibiru.SDB
